@@ -72,6 +72,7 @@ type FuncVal struct {
 
 type ChanObj struct {
 	ID    int
+	Cap   int
 	items []chanItem
 }
 type ChanVal struct{ C *ChanObj }
